@@ -1,5 +1,5 @@
-(** C38 — main statements: what holds for every schedule, the two refutations
-    with their witness schedules, and the guarded (partial) versions. *)
+(** C38 — main statements, all for every schedule (full strength since
+    chain33 66be1e2), and what the two former refutation schedules produce now. *)
 From Coq Require Import List ZArith NArith Bool Lia Arith.
 From C33 Require Import Lib.Harness C38.Model C38.Spec C38.Witness C38.Proofs.
 Import ListNotations.
@@ -20,16 +20,6 @@ Proof.
   unfold reach in *. rewrite A in B. inversion B. reflexivity.
 Qed.
 
-(** no flag test made under the mutex falls between the CAS and the restore of
-    another thread's ProcWalletSetPasswd *)
-Lemma window_invisible_under_mutex sched i u w t :
-  In (EObs i u true w t) (trace (reach sched)) -> w = false.
-Proof.
-  intro H. pose proof (inv_clean _ (Inv_reachable sched)) as C.
-  unfold held_obs_clean in C. rewrite forallb_forall in C. apply C in H.
-  simpl in H. destruct w; [discriminate|reflexivity].
-Qed.
-
 Lemma secrets_ok_split l1 i l2 :
   secrets_ok (l1 ++ ESecret i :: l2) = true -> has_good_obs i l2 = true.
 Proof.
@@ -38,117 +28,105 @@ Proof.
   - destruct e; try exact IH. intro H. apply andb_true_iff in H as [_ H]. exact (IH H).
 Qed.
 
-Lemma good_obs_in i l : has_good_obs i l = true -> exists t, In (EObs i true true false t) l.
+Lemma good_obs_in i l : has_good_obs i l = true -> exists t, In (EObs i true true t) l.
 Proof.
   unfold has_good_obs. rewrite existsb_exists. intros [e [Hin He]].
   destruct e; simpl in He; try discriminate.
-  destruct unlocked, held, inwin; try discriminate.
+  destruct unlocked, held; try discriminate.
   apply Nat.eqb_eq in He. subst. eauto.
 Qed.
 
 (** a request returns a stored secret only after its own flag test, made under
-    the mutex and outside every SetPasswd window, saw the wallet unlocked *)
+    the mutex, saw the wallet unlocked *)
 Lemma no_secret_while_locked sched i newer older :
   trace (reach sched) = newer ++ ESecret i :: older ->
-  exists t, In (EObs i true true false t) older.
+  exists t, In (EObs i true true t) older.
 Proof.
   intro H. pose proof (inv_secrets _ (Inv_reachable sched)) as S.
   unfold reach in *. rewrite H in S. apply good_obs_in, (secrets_ok_split _ _ _ S).
 Qed.
 
-(** ** 2. the full statements and their refutations *)
+(** a ProcWalletSetPasswd request, whatever its passwords and whatever else is
+    going on, never changes the lock flag: not in any of its steps *)
+Lemma setpasswd_leaves_flag sched i old nw c :
+  nth_error (thr (reach sched)) i = Some (QSetPasswd old nw, c) ->
+  locked (sh (exec1 (reach sched) (SStep i))) = locked (sh (reach sched)).
+Proof.
+  intro Hi. pose proof (inv_setpw _ (Inv_reachable sched) _ _ _ _ Hi) as P.
+  unfold reach in *. unfold exec1. rewrite Hi.
+  destruct (step_thread i (sh (exec sched init_g)) (QSetPasswd old nw) c) as [[[s' c'] evs]|] eqn:E;
+    [|reflexivity].
+  simpl. exact (proj2 (step_setpw _ _ _ _ _ _ _ _ E P)).
+Qed.
+
+(** ** 2. the property, at full strength *)
 
 (** every observer (lock-free or not) sees "unlocked" only after a successful
     unlock with no lock / timeout / restart in between *)
-Definition observed_unlocked_full : Prop :=
-  forall sched, obs_ok true (trace (reach sched)) = true.
+Lemma observed_unlocked sched : obs_ok true (trace (reach sched)) = true.
+Proof. exact (inv_all _ (Inv_reachable sched)). Qed.
 
 (** the requests that hand out secrets act unlocked only after a successful
     unlock with no lock / timeout / restart in between *)
-Definition secret_unlock_before_full : Prop :=
-  forall sched, obs_ok false (trace (reach sched)) = true.
+Lemma secret_unlock_before sched : obs_ok false (trace (reach sched)) = true.
+Proof. apply obs_ok_weaken, observed_unlocked. Qed.
 
-Lemma window_witness :
+(** the flag itself: clear only while the authorisation monitor is on *)
+Lemma flag_clear_implies_unlock_before sched :
+  locked (sh (reach sched)) = false -> auth_of (trace (reach sched)) = true.
+Proof. exact (inv_flag _ (Inv_reachable sched)). Qed.
+
+(** ** 3. the former refutation schedules *)
+
+(** former finding 1: IsWalletLocked asked while a password change with a wrong
+    old password holds the mutex now says "locked" *)
+Lemma window_closed :
   let g := reach sched_window in
   result_of g 0 = Some ROk
-  /\ result_of g 1 = Some (RErr eVerifyOld)        (* the password change FAILED *)
-  /\ result_of g 2 = Some (RBool false)            (* IsWalletLocked said: unlocked *)
-  /\ locked (sh g) = true                          (* and the wallet is locked again *)
-  /\ existsb (fun e => match e with EUnlock _ _ _ => true | _ => false end) (trace g) = false
-  /\ obs_ok true (trace g) = false.
+  /\ result_of g 1 = Some (RErr eVerifyOld)        (* the password change failed *)
+  /\ result_of g 2 = Some (RBool true)             (* IsWalletLocked, asked meanwhile: locked *)
+  /\ locked (sh g) = true.
 Proof. vm_compute. repeat split; reflexivity. Qed.
 
-Lemma observed_unlocked_refuted : ~ observed_unlocked_full.
-Proof.
-  intro H. specialize (H sched_window).
-  pose proof window_witness as W. cbv zeta in W. destruct W as (_ & _ & _ & _ & _ & W).
-  rewrite H in W. discriminate.
-Qed.
-
-Lemma lost_lock_witness :
-  let g := reach sched_lost_lock in
+(** former finding 2: a ProcWalletLock that completes between the flag test and
+    the rest of a (failing) password change stays in effect *)
+Lemma lock_survives_setpasswd :
+  let g := reach sched_lock_race in
   result_of g 1 = Some ROk
   /\ result_of g 2 = Some (RErr eVerifyOld)   (* the password change failed *)
   /\ result_of g 3 = Some ROk                 (* the lock succeeded *)
-  /\ result_of g 4 = Some RSecret             (* afterwards GetSeed hands out the seed *)
-  /\ locked (sh g) = false
-  /\ split_race g = true
-  /\ obs_ok false (trace g) = false.
+  /\ result_of g 4 = Some (RErr eLocked)      (* afterwards GetSeed is refused *)
+  /\ locked (sh g) = true.
 Proof. vm_compute. repeat split; reflexivity. Qed.
 
-Lemma secret_unlock_before_refuted : ~ secret_unlock_before_full.
-Proof.
-  intro H. specialize (H sched_lost_lock).
-  pose proof lost_lock_witness as W. cbv zeta in W. destruct W as (_ & _ & _ & _ & _ & _ & W).
-  rewrite H in W. discriminate.
-Qed.
-
-(** ** 3. the guarded versions *)
-
-(** guard 1 (boolean, computed along the schedule): no ProcWalletLock / timer
-    CAS falls between the load and the CAS(1->0) of a ProcWalletSetPasswd *)
-Definition no_split_race (sched : list sched_item) : bool := negb (split_race (reach sched)).
-
-(** guard 2: no lock-free observer reads the flag between the CAS and the
-    restore of a ProcWalletSetPasswd that started on a locked wallet *)
-Definition no_obs_in_window (sched : list sched_item) : bool := negb (obs_in_win (reach sched)).
-
-Lemma secret_unlock_before_partial sched :
-  no_split_race sched = true -> obs_ok false (trace (reach sched)) = true.
-Proof.
-  unfold no_split_race. intro H. apply negb_true_iff in H.
-  exact (inv_held _ (Inv_reachable sched) H).
-Qed.
-
-Lemma observed_unlocked_partial sched :
-  no_split_race sched = true -> no_obs_in_window sched = true ->
-  obs_ok true (trace (reach sched)) = true.
-Proof.
-  unfold no_split_race, no_obs_in_window. intros H1 H2.
-  apply negb_true_iff in H1. apply negb_true_iff in H2.
-  exact (inv_all _ (Inv_reachable sched) H1 H2).
-Qed.
-
-(** the guards are satisfiable by a schedule with real concurrency: a password
-    change (right old password, wallet unlocked) is in flight while Lock and
-    IsWalletLocked run; a key request waits for the mutex and is then refused *)
-Definition sched_guarded : list sched_item :=
+(** non-vacuity, with real concurrency: a password change (right old password,
+    wallet unlocked) is in flight while Lock and IsWalletLocked run; a seed
+    request waits for the mutex and is then refused; the change succeeds and the
+    wallet stays locked until it is unlocked with the NEW password, after which
+    the seed is handed out *)
+Definition sched_concurrent : list sched_item :=
   [SSpawn (QSaveSeed pwA)] ++ steps 0 3
   ++ [SSpawn (QUnlock pwA 5 false)] ++ steps 1 6
   ++ [SSpawn QIsLocked] ++ steps 2 1
-  ++ [SSpawn (QSetPasswd pwA pwB)] ++ steps 3 6
+  ++ [SSpawn (QSetPasswd pwA pwB)] ++ steps 3 4
   ++ [SSpawn (QSecret (KSeed pwB)); SStep 4]         (* waits *)
   ++ [SSpawn QLock] ++ steps 5 2
   ++ [SSpawn QIsLocked] ++ steps 6 1
-  ++ steps 3 6 ++ steps 4 4
-  ++ [SAdvance (5 * second); SFire; SSpawn QStatus] ++ steps 7 2.
+  ++ steps 3 3 ++ steps 4 3
+  ++ [SAdvance (5 * second); SFire; SSpawn QStatus] ++ steps 7 2
+  ++ [SSpawn (QUnlock pwA 0 false)] ++ steps 8 4
+  ++ [SSpawn (QUnlock pwB 0 false)] ++ steps 9 5
+  ++ [SSpawn (QSecret (KSeed pwB))] ++ steps 10 5.
 
-Lemma guarded_example :
-  let g := reach sched_guarded in
-  no_split_race sched_guarded = true /\ no_obs_in_window sched_guarded = true
-  /\ result_of g 2 = Some (RBool false)          (* seen unlocked, legitimately *)
-  /\ result_of g 3 = Some (RErr eLocked)         (* the change noticed the lock in its own flag test *)
-  /\ result_of g 4 = Some (RErr eLocked)
+Lemma concurrent_example :
+  let g := reach sched_concurrent in
+  result_of g 2 = Some (RBool false)             (* seen unlocked, legitimately *)
+  /\ result_of g 3 = Some ROk                    (* the password change went through *)
+  /\ result_of g 4 = Some (RErr eLocked)         (* the waiting request met the lock *)
   /\ result_of g 6 = Some (RBool true)
-  /\ result_of g 7 = Some (RStatus true true).
+  /\ result_of g 7 = Some (RStatus true true)
+  /\ result_of g 8 = Some (RErr eInputPw)        (* the old password no longer unlocks *)
+  /\ result_of g 9 = Some ROk
+  /\ result_of g 10 = Some RSecret
+  /\ existsb (fun e => match e with EObs _ true _ _ => true | _ => false end) (trace g) = true.
 Proof. vm_compute. repeat split; reflexivity. Qed.
